@@ -3086,7 +3086,18 @@ class StateEngine(object):
                     event["data"] = merge_result(data, context, result, state)
 
                     if state.get("End"):
+                        in_branch = "Branch" in context["State"]
                         handle_terminal_state(state_type, event, id)
+                        """
+                        handle_terminal_state acknowledges the event of a top
+                        level state. In a Branch or Iterator it records the
+                        result for the join, but the event of a Map state is
+                        not held for the join like the events of other states
+                        (normally it has been acknowledged above by now), so
+                        the event of an empty Map state is acknowledged here.
+                        """
+                        if in_branch:
+                            self.event_dispatcher.acknowledge(id)
                     else:
                         error_type, error_message = self.change_state(
                             state_machine, state_type, state.get("Next"), event
